@@ -210,6 +210,7 @@ func (rule *overlappingFieldsCanBeMergedRule) collectConflictsBetweenFieldsAndFr
 		return conflicts
 	}
 	rule.comparedFieldsAndFragmentSet.Add(fieldsInfo, fragmentName, areMutuallyExclusive)
+	verifCount(VerifSiteFieldsAndFragment)
 
 	fragment := rule.context.Fragment(fragmentName)
 	if fragment == nil {
@@ -257,6 +258,7 @@ func (rule *overlappingFieldsCanBeMergedRule) collectConflictsBetweenFragments(c
 		return conflicts
 	}
 	rule.comparedSet.Add(fragmentName1, fragmentName2, areMutuallyExclusive)
+	verifCount(VerifSiteBetweenFragments)
 
 	fieldsInfo1 := rule.getReferencedFieldsAndFragmentNames(fragment1)
 	fieldsInfo2 := rule.getReferencedFieldsAndFragmentNames(fragment2)
@@ -379,6 +381,7 @@ func (rule *overlappingFieldsCanBeMergedRule) collectConflictsBetween(conflicts 
 
 // findConflict Determines if there is a conflict between two particular fields.
 func (rule *overlappingFieldsCanBeMergedRule) findConflict(parentFieldsAreMutuallyExclusive bool, responseName string, field *fieldDefPair, field2 *fieldDefPair) *conflict {
+	verifCount(VerifSiteFindConflict)
 
 	parentType1 := field.ParentType
 	ast1 := field.Field
